@@ -103,6 +103,19 @@ def non_ascii_identifier():
     return _pkg("wfo", [Module("wfo/mod_a.py", "wfo.mod_a", funcs=[f], classes=[Cls("Änderung003")])]), {}
 
 
+# ---- regression witnesses of repaired defects (they are part of every corpus; a fixed entry suppresses nothing) ----
+def two_readwrite_properties():
+    """fix 2e85634 / 3c5b17b: two properties with setters in one module aborted the walk; a property with a setter was dropped"""
+    a = Cls("Gauge001", methods=[Func("level002", [], ret=Ann("int"), deco="prop", setter=True, doc="Doc of level002. Line one."),
+                                 Func("unit003", [], ret=Ann("str"), deco="prop", setter=True),
+                                 Func("read004", [], ret=Ann("float"), deco="prop"),
+                                 Func("reset005", [Param("p006", "pos", Ann("int"))], ret_none=True, body="pass")])
+    b = Cls("Other007", methods=[Func("mode008", [], ret=Ann("optional", [Ann("int")]), deco="prop", setter=True)])
+    return _pkg("wfp", [Module("wfp/mod_a.py", "wfp.mod_a", classes=[a, b], funcs=[Func("f009", [], ret=Ann("int"))])]), {}
+
+
+FIXED_BUILDERS = {f.__name__: f for f in [two_readwrite_properties]}
+
 BUILDERS = {f.__name__: f for f in [enum_without_publicity_test, property_tuple_as_union, callable_attribute_untyped,
                                     none_result_suppresses_list, typevar_typed_attribute_dropped, private_class_as_type,
                                     nc_snake_case_class_reference, result_warn_always, stale_class_generics, rename_on_model, enum_name_not_converted, class_attribute_list_items_by_name, tuple_returns_equal_up_to_order,
